@@ -1,7 +1,7 @@
 #!/bin/bash
 # usage: run_seed.sh <seed dir> <prop> [<prop>...]   -- applies the change to /repo, runs the quick checks, reverts.
 d=$(readlink -f "$1"); shift
-cd /repo && [ -z "$(git status --porcelain)" ] || { echo "/repo not clean"; exit 2; }
+cd /repo && [ -z "$(git status --porcelain --untracked-files=no)" ] || { echo "/repo not clean"; exit 2; }
 git apply "$d/patch.diff" 2>/dev/null || git apply --3way "$d/patch.diff" || { echo "patch does not apply"; exit 2; }
 git reset -q
 for p in "$@"; do
